@@ -56,6 +56,11 @@ def corpus(seed, tier):
         out.append((f'e{i}', p, 1000))
     for i, (p, lim) in enumerate(gen.REGRESSION_PROVER):
         out.append((f'g{i}', p, lim))
+    # halting machines on which the prover meets a multiplying rule with a shrinking counter (MultRule = "no claim");
+    # they halt after 4.5e7 / 1.8e8 steps: ids D* get a larger real-run budget in the oracle
+    for c in (12, 13):
+        out.append((f'D{c}', gen.doubler_machine(c), 10000))
+    dist['doubler_machines'] = 2
     dist['eraser_compositions'] = len(ers)
     # leaves of the real tree generator (3x2 .. 2x4, both trees): short closed orbits, near-arithmetic count sequences
     # (after seeded change C03-m1: three of four snapshot counts in arithmetic progression)
@@ -122,7 +127,7 @@ def oracle(cs, h, budget):
             # `steps` counts simulated steps only: with rule applications the real run is longer
             todo.append((cid, p, (r['steps'] + 1) if r['rulapp'] == 0 else budget, r))
         elif r['kind'] == 'infrul':
-            todo.append((cid, p, budget, r))
+            todo.append((cid, p, max(budget, 250000000) if cid.startswith('D') else budget, r))
         elif r['kind'] == 'xlimit' and r['rulapp'] == 0 and r['steps'] <= 300000:
             todo.append((cid, p, r['steps'], r))
     nv = core.run_bbh([f'{cid}|naive|{p}|{L}' for cid, p, L, r in todo])
